@@ -131,7 +131,7 @@ func genExtraneous(g *Gen, src *fstree.Tree, dst *fstree.Tree, n int) {
 		have[p] = true
 		switch g.R.Intn(6) {
 		case 0:
-			dst.Entries = append(dst.Entries, fstree.Entry{Path: fstree.Name(p), Type: "d", Perm: 0o755, Mtime: 1_400_000_000})
+			dst.Entries = append(dst.Entries, fstree.Entry{Path: fstree.Name(p), Type: "d", Perm: []uint32{0o755, 0o755, 0o555, 0o500, 0o700, 0o711}[g.R.Intn(6)], Mtime: 1_400_000_000})
 			// nested extraneous content
 			for j := 0; j < g.R.Intn(3); j++ {
 				q := p + "/" + g.NameComponent(true)
